@@ -426,6 +426,25 @@ impl Array4 {
     }
 }
 
+#[cfg(feature = "verif-hooks")]
+impl Array4 {
+    pub(super) fn verif_fill(&self, st: &mut crate::verif::HllState) {
+        let k = 1u32 << self.lg_config_k;
+        st.registers = (0..k).map(|slot| self.get(slot)).collect();
+        st.raw_nibbles = (0..k).map(|slot| self.get_raw(slot)).collect();
+        st.aux = match &self.aux_map {
+            Some(aux) => aux.iter().collect(),
+            None => vec![],
+        };
+        st.cur_min = self.cur_min;
+        st.num_at_cur_min = self.num_at_cur_min;
+        st.hip_accum = self.estimator.hip_accum();
+        st.kxq0 = self.estimator.kxq0();
+        st.kxq1 = self.estimator.kxq1();
+        st.out_of_order = self.estimator.is_out_of_order();
+    }
+}
+
 #[cfg(test)]
 mod tests {
     use super::*;
